@@ -15,7 +15,10 @@ RULE = ("exhaustive: all 59 049 attribute dicts (9 fg x 9 bg x 3^6 styles, expli
         "non-trivial = distinct attribute dicts / strings with at least one active attribute")
 ASSUMPTIONS = ["text free of ESC (0x1b) and 8-bit CSI (0x9b), as the property's quantifier says",
                "Python's sorted() order of the eight attribute names is the model's field order (checked by the string-level tie)"]
-TRUSTED = ["Spec/Sgr.lean is my reading of ECMA-48 SGR (0,1,2,3,4,5,7,30-37,39,40-47,49); pyte is a second opinion on a sample only"]
+TRUSTED = ["Spec/Sgr.lean is my reading of ECMA-48 SGR (0,1,2,3,4,5,7,30-37,39,40-47,49); it displays every character other than ESC and U+009B as a cell, "
+           "including C0 controls and the other C1 controls (U+0080-U+009F: a terminal honouring 8-bit controls would interpret U+0090/U+009D etc.) - the property's "
+           "domain excludes only ESC/CSI introducers, and so does the theorem; pyte is a second opinion (colour names, styles except faint, final pen) on ASCII runs "
+           "for every 7th attribute dict"]
 
 STYLES = ("blink", "bold", "dark", "invert", "italic", "underline")
 
@@ -95,11 +98,14 @@ def check(ctx):
     for _ in range(1500 if ctx.thorough else 300):
         pool, _log = api_pool(ctx.rng, steps=10)
         for f in pool:
+            ch = wire.fmt_chunks(f)
             try:
-                api_cases.append(wire.fmt_chunks(f))
-                api_objs.append(f)
-            except wire.Unencodable:
-                pass
+                wire.enc_chunks(ch)
+            except wire.Unencodable as e:
+                ctx.violation("a value built through the public API carries an attribute outside the legal ones: %r" % (e,), repr(ch))
+                continue
+            api_cases.append(ch)
+            api_objs.append(f)
     strs = {}
 
     def impl_obj(i_c):
@@ -123,31 +129,51 @@ def check(ctx):
         cs = ";".join(wire.enc_text(ch) + "|" + enc(st) for ch, st in cells) or "-"
         return "ok %s %s %s %s" % (cs, enc(final) or ".", ",".join(ctls) or ".", mode)
     ctx.tie("C01/sgr-spec-mirror", sample, lambda s: "display " + wire.enc_tf(s), mirror)
+    # second opinion independent of my reading of SGR: pyte (a terminal emulator) on ASCII runs, every 7th attribute
+    # dict; compares character, colour NAMES, every style pyte knows (it has no faint/dark) and the final pen.
     try:
         import pyte
-        bad = 0
-        for s in sample[:400]:
-            if "\n" in s or "\t" in s or "\r" in s or any(ord(ch) > 126 or ord(ch) < 32 for ch in s.replace("\x1b", "")):
-                continue
-            cells, _, ctls, mode = sgrterm.display(s)
-            if ctls or mode != "ground" or len(cells) > 70:
-                continue
-            scr = pyte.Screen(80, 2)
-            pyte.Stream(scr).feed(s)
-            for i, (ch, st) in enumerate(cells):
-                pc = scr.buffer[0][i]
-                d = dict(st)
-                ok = pc.data == ch and pc.bold == d.get("bold", False) and pc.italics == d.get("italic", False) \
-                    and pc.underscore == d.get("underline", False) and pc.reverse == d.get("invert", False) \
-                    and pc.blink == d.get("blink", False) \
-                    and (pc.fg == "default") == ("fg" not in d) and (pc.bg == "default") == ("bg" not in d)
-                if not ok:
-                    bad += 1
-        ctx.ties["C01/pyte-second-opinion"] = dict(compared=len(sample[:400]), disagreements=bad)
-        if bad:
-            ctx.disagreements.append(("C01/pyte-second-opinion", None, None, "%d cells differ between pyte and the SGR spec" % bad))
     except ImportError:
         ctx.note("pyte not importable; second opinion skipped")
+        return
+    PYTE_COL = ("black", "red", "green", "brown", "blue", "magenta", "cyan", "white")
+    cells_cmp, bad, first_bad = 0, 0, None
+    for i, a in enumerate(all_atts()):
+        if i % 7:
+            continue
+        c = [("ab", a), ("c", {}), ("de", PALETTE[i % len(PALETTE)])]
+        try:
+            s = str(mk_fmt(c))
+        except Exception:  # noqa: BLE001 - reported by the main loop above
+            continue
+        scr = pyte.Screen(20, 2)
+        pyte.Stream(scr).feed(s)
+        k = 0
+        for text, atts in c:
+            d = {kk: v for kk, v in atts.items() if v is not False}
+            for ch in text:
+                pc = scr.buffer[0][k]
+                k += 1
+                cells_cmp += 1
+                want_fg = PYTE_COL[d["fg"] - 30] if "fg" in d else "default"
+                want_bg = PYTE_COL[d["bg"] - 40] if "bg" in d else "default"
+                ok = (pc.data == ch and pc.fg == want_fg and pc.bg == want_bg and pc.bold == d.get("bold", False)
+                      and pc.italics == d.get("italic", False) and pc.underscore == d.get("underline", False)
+                      and pc.reverse == d.get("invert", False) and pc.blink == d.get("blink", False))
+                if not ok:
+                    bad += 1
+                    first_bad = first_bad or (c, k - 1)
+        pen = scr.cursor.attrs
+        cells_cmp += 1
+        if not (pen.fg == "default" and pen.bg == "default" and not pen.bold and not pen.italics and not pen.underscore
+                and not pen.reverse and not pen.blink):
+            bad += 1
+            first_bad = first_bad or (c, "final pen")
+    ctx.ties["C01/pyte-second-opinion"] = dict(compared=cells_cmp, disagreements=bad)
+    if cells_cmp == 0:
+        ctx.note("pyte second opinion compared nothing")
+    if bad:
+        ctx.disagreements.append(("C01/pyte-second-opinion", first_bad, None, "%d cells differ between pyte and the SGR spec" % bad))
 
 
 def search(ctx):
